@@ -1381,6 +1381,17 @@ func (a *Agent) addRelayCandidates(ctx context.Context, ep relayEndpoint) {
 
 	addresses, ok := a.resolveRelayAddresses(ep)
 	if !ok {
+		// The allocation is dropped (e.g. a replace rule without usable external
+		// addresses): release it instead of leaking the relay and its TURN client.
+		if ep.closeConn != nil {
+			ep.closeConn()
+		}
+		if ep.onClose != nil {
+			if err := ep.onClose(); err != nil {
+				a.log.Warnf("Failed to close dropped relay endpoint: %v", err)
+			}
+		}
+
 		return
 	}
 
